@@ -55,6 +55,7 @@ def gen_ops(rng, n, nsel, addrs, bursts=False, full_sel=False, wrap_words=None):
         if bursts and rng.random() < 0.35:
             kind = rng.choice(["incr", "incr", "wrap", "const"])
             ln = rng.randint(2, 8)
+            wait_states = rng.random() < 0.4
             a0 = addrs(rng)
             we = int(rng.random() < 0.5)
             bte = 0
@@ -73,7 +74,9 @@ def gen_ops(rng, n, nsel, addrs, bursts=False, full_sel=False, wrap_words=None):
                     a, cti = (a0 & ~msk) | ((a0 + k) & msk), 2
                 last = k == ln - 1
                 ops.append({"we": we, "adr": a, "dat": rng.getrandbits(dwbits), "sel": (1 << nsel) - 1 if rng.random() < 0.8 else rng.getrandbits(nsel),
-                            "gap": rng.choice([0, 1, 3]) if k == 0 else 0, "keep_cyc": 0,
+                            # (a master wait state inside a burst now and then: stb low for a cycle or two with cyc and cti held)
+                            "gap": rng.choice([0, 1, 3]) if k == 0 else (rng.choice([1, 2]) if wait_states and rng.random() < 0.25 else 0),
+                            "keep_cyc": int(k > 0),
                             "cti": 7 if (last and not cut) else cti, "bte": bte})
             if cut:
                 # burst cut short: the next op must start after cyc was dropped
